@@ -1369,3 +1369,22 @@ Proof.
   apply forallb_forall. intros p I. rewrite Forall_forall in Hp.
   rewrite (needs_bracket_plain p (Hp p I)). reflexivity.
 Qed.
+
+(* ================================================================== Part 7: histories *)
+Lemma history_independent : forall py_int py_hex py_float host_ok localhost_ip E calls k d s,
+  nth_error calls k = Some (d, s) ->
+  nth_error (run_history py_int py_hex py_float host_ok localhost_ip E calls) k
+  = Some (create py_int py_hex py_float host_ok localhost_ip E d s).
+Proof.
+  intros py_int py_hex py_float host_ok localhost_ip E calls k d s H. unfold run_history.
+  rewrite (map_nth_error _ _ _ H). reflexivity.
+Qed.
+
+Lemma history_same_call_same_outcome : forall py_int py_hex py_float host_ok localhost_ip E calls calls' k k',
+  nth_error calls k = nth_error calls' k' ->
+  nth_error (run_history py_int py_hex py_float host_ok localhost_ip E calls) k
+  = nth_error (run_history py_int py_hex py_float host_ok localhost_ip E calls') k'.
+Proof.
+  intros py_int py_hex py_float host_ok localhost_ip E calls calls' k k' H. unfold run_history.
+  rewrite !nth_error_map, H. reflexivity.
+Qed.
